@@ -814,9 +814,18 @@ static void check_stats_file(void)
 					"thread %llu %lld, node %lld", (long long)(trec > nrec ? trec - nrec : nrec - trec), (unsigned long long)t,
 				    (long long)trec, (long long)nrec);
 			int th = node * 8 + (int)t;
-			if((uint64_t)trec != st_nrec[th])
-				rs_fail("C20 statistics file holds %lld records for thread %llu, the thread produced %u", (long long)trec,
-				    (unsigned long long)t, st_nrec[th]);
+			/* only complete rows are dumped: the file holds the records every thread of the node produced; a thread that
+			 * finished the last round inside gvt_msg_drain legitimately produced one record less than the others */
+			uint64_t common = st_nrec[node * 8];
+			for(uint64_t o = 0; o < t_cnt; ++o)
+				if(st_nrec[node * 8 + o] < common)
+					common = st_nrec[node * 8 + o];
+			if((uint64_t)trec != common)
+				rs_fail("C20 statistics file holds %lld records for thread %llu, the threads of the node produced %llu complete rows "
+					"(this thread %u)", (long long)trec, (unsigned long long)t, (unsigned long long)common, st_nrec[th]);
+			if(st_nrec[th] > common + 1)
+				rs_fail("C20 thread %llu produced %u records, another thread of the node only %llu: more than the one round that can "
+					"end inside the shutdown code", (unsigned long long)t, st_nrec[th], (unsigned long long)common);
 			uint64_t cum_fwd = 0, cum_undone = 0;
 			for(int64_t k = 0; k < trec; ++k) {
 				uint64_t rec[64];
